@@ -151,21 +151,40 @@ pub fn crash_explore(o: &mut Outcome, plans: &[Plan], deadline: Instant, q: bool
 }
 
 pub fn crash_explore_mode(o: &mut Outcome, plans: &[Plan], deadline: Instant, q: bool, conformance_programs: usize, key_prefix: &str, mode: CrashMode) {
-    let mut jobs: Vec<(usize, Vec<Op>)> = vec![];
+    let mut required_jobs: Vec<(usize, Vec<Op>)> = vec![];
+    let mut optional_jobs: Vec<(usize, Vec<Op>)> = vec![];
     let mut props = vec![];
     for (pi, pl) in plans.iter().enumerate() {
         let mut prop = SeqProp::new("C02", pl.cfg.clone(), pl.alpha.clone());
         prop.c12_ops = false;
         prop.prefix = prefix(pl.prefix);
-        let ls = match &pl.fixed {
-            Some(f) => f.iter().map(|p| p.iter().map(|s| Op::parse(s).expect("fixed op")).collect()).collect(),
-            None => leaves(&prop, pl.depth),
-        };
-        for l in ls {
-            jobs.push((pi, l));
+        match &pl.fixed {
+            Some(f) => {
+                for p in f {
+                    required_jobs.push((pi, p.iter().map(|s| Op::parse(s).expect("fixed op")).collect()));
+                }
+            }
+            None => {
+                // required core: the maximal programs one level shallower; extension: the full depth
+                if pl.depth >= 2 {
+                    for l in leaves(&prop, pl.depth - 1) {
+                        required_jobs.push((pi, l));
+                    }
+                    for l in leaves(&prop, pl.depth) {
+                        optional_jobs.push((pi, l));
+                    }
+                } else {
+                    for l in leaves(&prop, pl.depth) {
+                        required_jobs.push((pi, l));
+                    }
+                }
+            }
         }
         props.push(prop);
     }
+    let required = required_jobs.len();
+    let mut jobs = required_jobs;
+    jobs.extend(optional_jobs);
     let findings: Mutex<Vec<Finding>> = Mutex::new(vec![]);
     let stats = Mutex::new(CrashStats { programs: 0, images: 0, torn: 0, pre_open_images: 0, kill_checks: 0, kill_mismatch: 0, inflight_old: 0, inflight_new: 0, events: 0 });
     let outcomes: Mutex<BTreeSet<u64>> = Mutex::new(BTreeSet::new());
@@ -434,8 +453,9 @@ pub fn crash_explore_mode(o: &mut Outcome, plans: &[Plan], deadline: Instant, q:
     if s.kill_mismatch > 0 {
         o.machinery_errors.push(format!("image mechanism does not conform to real kills: {} mismatches of {}", s.kill_mismatch, s.kill_checks));
     }
-    if timed_out {
-        o.machinery_errors.push(format!("time cap hit after {done}/{} crash programs", jobs.len()));
+    o.cov(&format!("{kp}required_core_programs"), json!(required));
+    if timed_out && done < required {
+        o.machinery_errors.push(format!("time cap hit after {done} crash programs, before the required core of {required} was finished"));
     }
     if mode == CrashMode::Crash && plans.iter().any(|p| !p.cfg.manual_persist) && (s.inflight_new == 0 || s.inflight_old == 0) {
         o.machinery_errors.push("reachability witness missing: never saw both outcomes of an in-flight operation".into());
